@@ -296,7 +296,10 @@ def run(argv):
                 elif arg == "-m":
                     metric = arg_next
                 elif arg == "-T":
-                    dim_agg_length = int(arg_next)
+                    try:
+                        dim_agg_length = int(arg_next)
+                    except ValueError:
+                        verif.util.error("-T <value> must be an integer")
                 elif arg == "-Tagg":
                     dim_agg_method = verif.aggregator.get(arg_next)
                 elif arg == "-Tx":
